@@ -81,6 +81,17 @@ def check(tier):
         run.cov.setdefault("reference_topologies", 0)
         run.cov["reference_topologies"] += len(topo)
         cases += topo
+    # exhaustive nesting chains (MC_NestChains.tla): a component reached through every chain of <= 3 anonymous
+    # wrappers (SEQUENCE OF, SET OF, SEQUENCE, SET, CHOICE in any order) ending in each kind of leaf
+    nc_cfg = run.path("MC_NestChains.cfg")
+    open(nc_cfg, "w").write(f"SPECIFICATION Spec\nCONSTANT MaxChain = {3 if tier == 'quick' else 4}\nINVARIANTS PathShaped Emit\nCHECK_DEADLOCK FALSE\n")
+    nc = core.tlc("mc/MC_NestChains.tla", nc_cfg, workers=1, timeout=1800, xmx="8g")
+    run.add_tlc(nc, "NestChains exhaustive: outer kind x wrapper chains x leaf kind")
+    chains = nc.printed("CASE")
+    if len(chains) < 2000:
+        raise ToolError(f"nesting chains: expected 2325 tables, got {len(chains)}")
+    run.cov["nesting_chains"] = len(chains)
+    cases += chains
     run.case_of = lambda ev: cases[ev["case"]] if "case" in ev and ev["case"] < len(cases) else None
     events = drive_and_validate(run, cases, shards=4 if tier == "quick" else 16)
     ct = [e for e in events if e["ev"] == "ctype"]
@@ -92,7 +103,7 @@ def check(tier):
                        "every builtin type, constraints, tags, markers, nesting to depth 4, recursion, forward and cross-module "
                        "references, values, DEFAULTs), seeded by VERIF_SEED; one trace event per constructed type (also anonymous "
                        "nested ones); plus every reference topology of RecGraph.tla (2 definitions exhaustively; 3 definitions "
-                       "exhaustively in the thorough tier, a seeded sample of 1500 in the quick tier); non-trivial = the type has at least one component / an element type and an item was "
+                       "exhaustively in the thorough tier, a seeded sample of 1500 in the quick tier) and every nesting chain of MC_NestChains.tla (outer kind x <= 3 anonymous wrappers x leaf kind); non-trivial = the type has at least one component / an element type and an item was "
                        "generated; distinct by printed ASN.1 of the type")
     step = max(1, len(ct) // 6)
     run.cov["samples"] = [{"asn": e["asn"], "observed_members": [{k: m[k] for k in ("name", "cls", "optional", "boxed", "has_default")} for m in e["obs"]]}
